@@ -2,7 +2,7 @@
 
 State space = the full lattice
   {entrait, entrait_export} x {feature off, on} x unimock{absent,true,false} x mock_api{absent,present}
-  x mockall{absent,true,false} x export{absent,true,false} x {fn, mod, trait} x {cfg(test), not(test)}   (1296 points)
+  x mockall{absent,true,false} x export{absent,true,false} x {fn, mod, trait} x {cfg(test), not(test)}   (3024 points)
 Model = the decision table read off the statement.
 Impl  = (a) attributes on the emitted trait in the recorded expansion, (b) the compiled crate: does
         `Unimock: Tr` hold, does `MockTr` exist - as runtime booleans, in a test and in a non-test build.
@@ -17,13 +17,17 @@ TRI = ["absent", "true", "false"]
 
 def enumerate_states(tier):
     states = []
-    for variant, feature, um, api, ma, ex, item, test in itertools.product(
-            ("entrait", "entrait_export"), (False, True), TRI, (False, True), TRI, TRI, ("fn", "mod", "trait"), (False, True)):
-        key = "x_%s_%s_u%s_%s_m%s_e%s_%s_%s" % ("exp" if variant == "entrait_export" else "ent", "fon" if feature else "foff",
-                                                um[0], "api" if api else "noapi", ma[0], ex[0], item, "test" if test else "notest")
-        states.append(dict(key=key, variant=variant, feature=feature, unimock=um, api=api, mockall=ma, export=ex, item=item, test=test))
+    for variant, feature, um, api, ma, ex, item, test, vis in itertools.product(
+            ("entrait", "entrait_export"), (False, True), TRI, (False, True), TRI, TRI, ("fn", "mod", "trait", "fnconc"), (False, True),
+            ("pub", "pub(crate)")):
+        if item == "trait" and vis != "pub":
+            continue     # (an entraited trait has no requested visibility)
+        key = "x_%s_%s_u%s_%s_m%s_e%s_%s_%s_%s" % ("exp" if variant == "entrait_export" else "ent", "fon" if feature else "foff",
+                                                   um[0], "api" if api else "noapi", ma[0], ex[0], item, "test" if test else "notest",
+                                                   "pc" if vis != "pub" else "p")
+        states.append(dict(key=key, variant=variant, feature=feature, unimock=um, api=api, mockall=ma, export=ex, item=item, test=test, vis=vis))
     # lattice edges: each point has one neighbour per changed dimension value
-    transitions = len(states) * (1 + 1 + 2 + 1 + 2 + 2 + 2 + 1) // 2
+    transitions = len(states) * (1 + 1 + 2 + 1 + 2 + 2 + 3 + 1 + 1) // 2
     return states, transitions, dict(lattice_points=len(states))
 
 
@@ -32,7 +36,7 @@ def model(s):
     if s["item"] == "trait" and s["export"] != "absent":
         return dict(rejected=True)
     um_on = (s["unimock"] == "true") if s["unimock"] != "absent" else s["feature"]
-    um_attached = um_on and (s["api"] or s["item"] == "trait")
+    um_attached = um_on and (s["api"] or s["item"] == "trait")   # (a concrete-deps fn is a fn: it needs mock_api like any other)
     ma_attached = s["mockall"] == "true"
     exporting = (s["export"] == "true") if s["export"] != "absent" else (s["variant"] == "entrait_export")
     gate = "ungated" if exporting else "gated"
@@ -48,8 +52,8 @@ def model(s):
 
 def attr_text(s):
     parts = []
-    if s["item"] in ("fn", "mod"):
-        parts.append("pub Tr")
+    if s["item"] in ("fn", "mod", "fnconc"):
+        parts.append(s.get("vis", "pub") + " Tr")
     if s["unimock"] != "absent":
         parts.append("unimock = " + s["unimock"])
     if s["api"]:
@@ -66,11 +70,15 @@ def render(s):
     L = ["mod %s {" % key, "    use super::rt;",
          "    pub trait IsFallback {}",
          "    pub mod fallback { pub struct MockTr; impl super::IsFallback for MockTr {} %s }" % (
-             "pub struct TrMock; impl super::IsFallback for TrMock {}" if s["item"] == "fn" else
+             "pub struct TrMock; impl super::IsFallback for TrMock {}" if s["item"] in ("fn", "fnconc") else
              "pub mod TrMock { pub struct f; impl super::super::IsFallback for f {} }"),
          "    use fallback::*;"]
     if s["item"] == "fn":
         L += ["    " + attr_text(s), "    pub fn f(deps: &impl ::core::any::Any, a: i64) -> i64 { a }"]
+        mock, api = "MockTr", "TrMock"
+    elif s["item"] == "fnconc":
+        # concrete dependency: the generated trait carries a nested entrait invocation (for the Impl<T> forwarding)
+        L += ["    pub struct Cfg;", "    " + attr_text(s), "    pub fn f(deps: &Cfg, a: i64) -> i64 { a }"]
         mock, api = "MockTr", "TrMock"
     elif s["item"] == "mod":
         L += ["    " + attr_text(s), "    pub mod m {", "        pub use super::fallback::*;",
@@ -184,8 +192,12 @@ def evaluate(states, report, tier):
                                              "the unimock mock API `TrMock` exists: %s in a %s build, model says %s" % (obs["unimock_api"], "test" if s["test"] else "non-test", m["unimock_impl"])))
                         # fn/mod traits without mock support have a blanket impl that covers Unimock too: only
                         # for entraited traits (always Impl<T>-only) is `Unimock: Tr` equivalent to "mock impl exists"
-                        if s["item"] != "trait":
+                        if s["item"] != "trait" and not (s["item"] == "fnconc"):
                             obs.pop("unimock_impl")
+                        elif s["item"] == "fnconc" and obs["unimock_impl"] != m["unimock_impl"]:
+                            # a concrete-deps trait is implemented for Cfg and Impl<T: Tr> only, so `Unimock: Tr` <=> a mock impl exists
+                            problems.append(("unimock-impl-%s" % ("present" if obs["unimock_impl"] else "absent"),
+                                             "`Unimock: Tr` is %s in a %s build, model says %s" % (obs["unimock_impl"], "test" if s["test"] else "non-test", m["unimock_impl"])))
                         elif obs["unimock_impl"] != m["unimock_impl"]:
                             problems.append(("unimock-impl-%s" % ("present" if obs["unimock_impl"] else "absent"),
                                              "`Unimock: Tr` is %s in a %s build, model says %s" % (obs["unimock_impl"], "test" if s["test"] else "non-test", m["unimock_impl"])))
@@ -203,7 +215,7 @@ def evaluate(states, report, tier):
         for sig, detail in problems:
             tags = {"item:" + s["item"], "variant:" + s["variant"], "feature:" + ("on" if s["feature"] else "off"),
                     "unimock:" + s["unimock"], "mockall:" + s["mockall"], "export:" + s["export"],
-                    "api" if s["api"] else "noapi", "cfg:test" if s["test"] else "cfg:notest"}
+                    "api" if s["api"] else "noapi", "cfg:test" if s["test"] else "cfg:notest", "vis:" + s.get("vis", "pub")}
             report.violation(s["key"], tags, sig, detail, state=s, source=engine.standalone_source(u),
                              meta=dict(mode="run", feature=s["feature"], cfg_test=s["test"]))
 
@@ -211,6 +223,6 @@ def evaluate(states, report, tier):
 def run(report, tier):
     states, transitions, bound = enumerate_states(tier)
     report.space(len(states), transitions, bound,
-                 "full option/feature/variant/item/cfg lattice (1296 points), no pruning; every point is non-trivial")
+                 "full option/feature/variant/item/cfg lattice (3024 points), no pruning; every point is non-trivial")
     report.assumptions += ["unimock 0.6.8 / mockall 0.12.1 derive macros as shipped"]
     evaluate(states, report, tier)
